@@ -500,7 +500,18 @@ func (c *Ctx) ruleFilterValueTable() {
 	if fn == nil {
 		return
 	}
-	paths := c.enum(rule, fn, PathOpts{})
+	// a small helper of the filter that filterValue hands the operation to (the operation switch extracted) is
+	// followed; the cryptographic operations and the store are the observed calls and stay calls
+	paths := c.enum(rule, fn, PathOpts{Inline: func(caller *ssa.Function, call *ssa.Call, callee *ssa.Function) bool {
+		if PkgPathOf(callee) != PkgEncrypt || callee.Signature.Recv() == nil || len(callee.Blocks) > 16 || caller != fn {
+			return false
+		}
+		switch funcShort(callee) {
+		case "(*filters/encrypt.Filter).encrypt", "(*filters/encrypt.Filter).hmacSha256":
+			return false
+		}
+		return true
+	}})
 	isClass := func(t *Term) bool { return t.Is("Field", "Classification") && t.Args[0].IsParam("3:classificationTag") }
 	isOp := func(t *Term) bool { return t.Is("Field", "Operation") && t.Args[0].IsParam("3:classificationTag") }
 	rows := map[string]bool{}
@@ -811,7 +822,15 @@ func (c *Ctx) ruleHandlers() {
 		}
 		inv := map[string]bool{}
 		var raw [][3]interface{}
-		for _, pa := range c.enum(rule, fn, PathOpts{}) {
+		// a method of the filter that is not a handler itself but dispatches to handlers (a loop of the dispatcher
+		// moved into a method of its own) is walked as part of the dispatcher
+		dispatchHelper := func(caller *ssa.Function, call *ssa.Call, callee *ssa.Function) bool {
+			if PkgPathOf(callee) != PkgEncrypt || callee.Signature.Recv() == nil || typeShort(callee.Signature.Recv().Type()) != "encrypt."+d.recv || handlers[funcShort(callee)] != "" || len(callee.Blocks) > 60 {
+				return false
+			}
+			return len(callsTo(callee, func(n string, cc *ssa.CallCommon) bool { return handlers[n] != "" })) > 0
+		}
+		for _, pa := range c.enum(rule, fn, PathOpts{Inline: dispatchHelper}) {
 			// walk steps in order, tracking the last positive fact. A positive test for a
 			// value-bearing type (string, []byte, wrapper values, string slices) creates an
 			// obligation: the matching value handler must run before the walk moves on to
@@ -1637,12 +1656,50 @@ func (c *Ctx) ruleEventKeyMaterial(rule string) {
 	must := c.MustLocks()
 	if proc := c.Fn(rule, PkgEncrypt, "Filter", "Process"); proc != nil {
 		tb := p.NewTerms(nil)
-		nw := callsTo(proc, func(n string, cc *ssa.CallCommon) bool { return n == "filters/encrypt.NewEventWrapper" })
+		isNEW := func(n string, cc *ssa.CallCommon) bool { return n == "filters/encrypt.NewEventWrapper" }
+		nw := callsTo(proc, isNEW)
+		viaHelper := false
+		if len(nw) == 0 {
+			// the derivation may sit in a helper of the filter that does nothing but derive: its one NewEventWrapper call
+			// takes (its ctx, the receiver's Wrapper, its id parameter) and every return hands back that call's results
+			for _, ci := range callsTo(proc, func(n string, cc *ssa.CallCommon) bool {
+				sc := cc.StaticCallee()
+				return sc != nil && sc.Blocks != nil && PkgPathOf(sc) == PkgEncrypt && sc.Signature.Recv() != nil && len(callsTo(sc, isNEW)) == 1
+			}) {
+				h := ci.Common().StaticCallee()
+				hc := callsTo(h, isNEW)[0]
+				htb := p.NewTerms(nil)
+				ha := hc.Common().Args
+				pure := len(h.Params) == 3 && ha[0] == ssa.Value(h.Params[1]) && htb.Of(ha[1]).Is("Field", "Wrapper") && htb.Of(ha[1]).Args[0].V == ssa.Value(h.Params[0]) && ha[2] == ssa.Value(h.Params[2])
+				for _, ret := range Returns(h) {
+					rv := RetVals(ret)
+					if len(rv) != 2 {
+						pure = false
+						continue
+					}
+					if ex, ok := rv[0].(*ssa.Extract); !(isNilConst(rv[0]) || (ok && ex.Index == 0 && ex.Tuple == hc.(ssa.Value))) {
+						pure = false
+					}
+					if !isNilConst(rv[1]) && !htb.Of(rv[1]).ContainsValue(hc.(ssa.Value)) {
+						pure = false
+					}
+				}
+				if pure {
+					nw = []ssa.CallInstruction{ci}
+					viaHelper = true
+					r.Notes = append(r.Notes, rule+": the per-event wrapper is derived in the helper "+p.ShortFn(h))
+					break
+				}
+			}
+		}
 		if len(nw) != 1 {
 			r.Bad(rule, "Process:NewEventWrapper", p.Pos(proc.Pos()), fmt.Sprintf("%d NewEventWrapper calls (expected 1)", len(nw)))
 		} else {
 			a := nw[0].Common().Args
 			okA := tb.Of(a[0]).IsParam("1:ctx") && tb.Of(a[1]).String() == "Field[Wrapper](Param(0:ef))" && strings.HasPrefix(tb.Of(a[2]).String(), "Call[invoke encrypt.EventWrapperInfo.EventId](")
+			if viaHelper {
+				okA = len(a) == 3 && tb.Of(a[0]).IsParam("0:ef") && tb.Of(a[1]).IsParam("1:ctx") && strings.HasPrefix(tb.Of(a[2]).String(), "Call[invoke encrypt.EventWrapperInfo.EventId](")
+			}
 			held := must.At(nw[0])
 			_, locked := held["encrypt.Filter.l"]
 			// ... for EVERY event that brings its own wrapper information: the derivation depends on the
